@@ -46,7 +46,14 @@ type Build struct {
 	Secs     float64
 }
 
-const repoDir = "/repo"
+// repoDir is /repo: the checks registered in MANIFEST.json always build from its current working tree.
+// (VERIF_REPO exists only for our own background sweeps over scratch copies, see DESIGN section 7.)
+var repoDir = func() string {
+	if d := os.Getenv("VERIF_REPO"); d != "" {
+		return d
+	}
+	return "/repo"
+}()
 
 var verifDir = func() string {
 	if d := os.Getenv("VERIF_DIR"); d != "" {
